@@ -221,6 +221,11 @@ class Socks5Connection(ConnectionInterface):
 
         with self._connect_lock:
             if self._connection is None:
+                if self._connect_failed:
+                    # An earlier request's connection attempt failed or was
+                    # cancelled while we were waiting for the lock: the pool
+                    # has already discarded this connection.
+                    raise ConnectionNotAvailable()
                 stream: NetworkStream | None = None
                 try:
                     # Connect to the proxy
